@@ -215,7 +215,12 @@ structure Item where
   depth : Nat
   deriving Inhabited
 
-def sortStrs (l : List String) : List String := (l.toArray.qsort (· < ·)).toList
+def insertSorted (x : String) : List String → List String
+  | [] => [x]
+  | y :: ys => if x ≤ y then x :: y :: ys else y :: insertSorted x ys
+
+/-- `sorted(...)` on symbols (insertion sort; only the resulting order matters) -/
+def sortStrs (l : List String) : List String := l.foldr insertSorted []
 
 /-- combination of the matchers' candidate symbols, exactly as the four-way `if` in the code -/
 def candidates (ms : List Matcher) : List String :=
@@ -237,6 +242,14 @@ def orderCandidates (cands : List String) (priority : List String) : List String
 def stepAll (ms : List Matcher) (a : String) : List Matcher :=
   ms.map fun m => (m.matchSymbol a).getD m     -- `m.match_symbol(..)`: result ignored, state kept on failure
 
+/-- the queue after trying every candidate insertion for `it` (nothing if its depth is spent) -/
+def expandQueue (priority : List String) (it : Item) (queue : List Item) : List Item :=
+  if it.depth = 0 then queue
+  else
+    queue ++ (orderCandidates (candidates it.matchers) priority).map fun c =>
+      { soFar := it.soFar ++ [c], remaining := it.remaining,
+        matchers := stepAll it.matchers c, depth := it.depth - 1 }
+
 /-- the `while queue` loop; `fuel` bounds the number of dequeued items -/
 def search (depthLimit : Nat) (priority : List String) :
     Nat → List Item → Option (List String)
@@ -246,29 +259,22 @@ def search (depthLimit : Nat) (priority : List String) :
     match it.remaining with
     | [] =>
       if it.matchers.all (·.isComplete) then some it.soFar
-      else expandItem fuel it queue
+      else search depthLimit priority fuel (expandQueue priority it queue)
     | a :: rest =>
       if it.matchers.all (fun m => m.validNext.contains a || m.validNext.contains WILDCARD) then
         search depthLimit priority fuel
           (queue ++ [{ soFar := it.soFar ++ [a], remaining := rest,
                        matchers := stepAll it.matchers a, depth := depthLimit }])
-      else expandItem fuel it queue
-where
-  expandItem (fuel : Nat) (it : Item) (queue : List Item) : Option (List String) :=
-    if it.depth = 0 then search depthLimit priority fuel queue
-    else
-      let cs := orderCandidates (candidates it.matchers) priority
-      search depthLimit priority fuel
-        (queue ++ cs.map fun c =>
-          { soFar := it.soFar ++ [c], remaining := it.remaining,
-            matchers := stepAll it.matchers c, depth := it.depth - 1 })
+      else search depthLimit priority fuel (expandQueue priority it queue)
 
 inductive SearchResult | found (l : List String) | impossible | outOfFuel
   deriving Repr
 
+def Item.initial (bidir : Bool) (initial : List String) (patterns : List Ast) (depthLimit : Nat) : Item :=
+  { soFar := [], remaining := initial, matchers := patterns.map (Matcher.init bidir), depth := depthLimit }
+
 def makeMatchingSequence (bidir : Bool) (initial : List String) (patterns : List Ast)
     (depthLimit : Nat) (priority : List String) (fuel : Nat) : Option (List String) :=
-  search depthLimit priority fuel
-    [{ soFar := [], remaining := initial, matchers := patterns.map (Matcher.init bidir), depth := depthLimit }]
+  search depthLimit priority fuel [Item.initial bidir initial patterns depthLimit]
 
 end VC2.Model.SymRe
